@@ -548,6 +548,10 @@ def run(repo: Repo, rep: Report, tier: str) -> None:
     from .compiled import compiled_fold_rule, shape_rule
 
     compiled_fold_rule(repo, rep, "C03.R24", tier)
+    from .c04 import struct_rw_fold_rule
+
+    # the interpreted reader against the same reference: together with R24 the two readers agree on every case of the folds
+    struct_rw_fold_rule(repo, rep, "C03.R25", 3 if tier == "thorough" else 2)
     shape_rule(repo, rep, tier, unpack_defined_rule, "C03.R16")
     shape_rule(repo, rep, tier, bit_storage_type_rule, "C03.R17")
     shape_rule(repo, rep, tier, backward_offset_rule, "C03.R18")
